@@ -57,6 +57,9 @@ type c14Cli struct {
 	BodyPipe  bool   `json:",omitempty"` // the -body file is a named pipe (process substitution, /dev/stdin)
 	// -proxy-header flags (meant for the CONNECT request to a proxy; none is in use here, so nothing of them may reach the target)
 	ProxyHeaders []c14CliKV `json:",omitempty"`
+	// ConnectTo: the targets name an address nothing listens on (192.0.2.1:8181) and -connect-to maps it to the server
+	ConnectTo    bool `json:",omitempty"`
+	KeepAliveOff bool `json:",omitempty"` // -keepalive=false
 }
 
 const wireBody = "0123456789"
@@ -185,6 +188,9 @@ func runC14Cli(c c14Cli) error {
 	}
 	defer srv.close()
 	base := "http://" + srv.ln.Addr().String()
+	if c.ConnectTo {
+		base = "http://192.0.2.1:8181"
+	}
 	// ---- the targets file
 	var doc strings.Builder
 	for i, t := range c.Targets {
@@ -230,7 +236,10 @@ func runC14Cli(c c14Cli) error {
 		rate, dur = fmt.Sprintf("%d/%dms", c.RateN, c.RatePerMS), fmt.Sprintf("%dms", c.DurMS)
 	}
 	args := []string{"-targets=" + tf, "-format=" + c.Format, "-output=" + out, "-rate=" + rate, "-duration=" + dur,
-		"-workers=1", "-max-workers=1", "-timeout=5s", "-keepalive=true", "-http2=false"}
+		"-workers=1", "-max-workers=1", "-timeout=5s", "-keepalive=" + strconv.FormatBool(!c.KeepAliveOff), "-http2=false"}
+	if c.ConnectTo {
+		args = append(args, "-connect-to=192.0.2.1:8181:"+srv.ln.Addr().String())
+	}
 	if c.Lazy {
 		args = append(args, "-lazy")
 	}
@@ -284,6 +293,9 @@ func runC14Cli(c c14Cli) error {
 	srv.mu.Lock()
 	reqs := append([]wireReq(nil), srv.reqs...)
 	srv.mu.Unlock()
+	if len(reqs) == 0 && c.ConnectTo && len(rs) > 0 {
+		return fmt.Errorf("vegeta attack -connect-to=192.0.2.1:8181:%s -keepalive=%v on targets at 192.0.2.1:8181: %d hits were made, none reached the mapped address (first result: code %d, error %q)", srv.ln.Addr(), !c.KeepAliveOff, len(rs), rs[0].Code, rs[0].Error)
+	}
 	if len(reqs) == 0 {
 		// on a stalled machine the (short) duration can be over before the first hit is released: nothing to judge
 		vh.Note("C14.cli: an attack made no request (duration over before the first release?)")
@@ -439,6 +451,8 @@ func TestC14Cli(t *testing.T) {
 			c.DefHeaders = append(c.DefHeaders, kv)
 			defKeys = append(defKeys, kv.K)
 		}
+		c.KeepAliveOff = rapid.IntRange(0, 2).Draw(t, "keepaliveoff") == 0
+		c.ConnectTo = rapid.IntRange(0, 2).Draw(t, "connectto") == 0
 		if rapid.IntRange(0, 2).Draw(t, "proxyhdrs") == 0 {
 			c.ProxyHeaders = []c14CliKV{{"X-Proxy-Only", "p1"}}
 			if len(defKeys) > 0 && rapid.Bool().Draw(t, "proxyshared") {
